@@ -9,8 +9,9 @@
 (* the relation in units of 10^-12 (capped at 10^9; -1 = not applicable).  *)
 (* Floating point never enters TLC; the numerical evaluation of a residual *)
 (* (numpy, in the driver) is part of the trusted projection.  This module  *)
-(* walks the logged life cycle  predict -> update / noobs  of every filter *)
-(* step and states the relations as invariants on the projected record:    *)
+(* walks the logged life cycle predict (-> forecasts) -> update / noobs of  *)
+(* every filter step (all on ONE filter instance) and states the          *)
+(* relations as invariants on the projected record:                        *)
 (*                                                                         *)
 (*   wsum    | sum Wm_i - 1 |                              WeightsSumToOne *)
 (*   sym     max asymmetry of pred_p / innov_cvr / est_p   Symmetric       *)
@@ -20,6 +21,10 @@
 (*   noobs   || est_x - F x || , || est_p - pred_p ||                       *)
 (*                                             NoObsReturnsPropagatedMean  *)
 (*   kpred   || pred_x - F x || , || pred_p - (F P F' + Q) ||  KalmanPredict*)
+(*   kfcast  the stand-alone forecast() calls made between predict() and   *)
+(*           update() (nfc of them, each for a candidate stack Hc, Rc):    *)
+(*           max of || S - (Hc Pg Hc' + Rc) ||, || K S - Pg Hc' ||,         *)
+(*           || est_p - (pred_p - K S K') ||              ForecastIsKalman *)
 (*   kinnov  || innov_cvr - (H Pg H' + R) ||               KalmanInnovation*)
 (*   kgain   || K S - Pg H' ||                             KalmanGain      *)
 (*   kmean   || est_x - (pred_x + K (y - H pred_x)) ||     KalmanMean      *)
@@ -60,6 +65,7 @@ WellFormed == Live => /\ Rec.n \in 1..8 /\ Rec.m \in 0..16
                       /\ \A f \in {"wsum", "symp", "psdp", "kpred"} : f \in DOMAIN Rec
 WeightsSumToOne == (pc = "posed") => Within(Rec.wsum)
 KalmanPredict   == (pc = "predicted") => Within(Rec.kpred)
+ForecastIsKalman == (pc = "predicted") => (Rec.nfc >= 0 /\ Within(Rec.kfcast))
 Symmetric == /\ (pc = "predicted") => Within(Rec.symp)
              /\ After => Within(Rec.syme)
 PSD       == /\ (pc = "predicted") => Within(Rec.psdp)
